@@ -83,4 +83,9 @@ theorem hessMulticomplex_quadratic (ms : List (ℝ × List ℕ)) (x h : ℕ → 
     ring
   rw [this, im_form]
   field_simp
+/-- the Hessian rule pairs the complex-step formula (eq. 10) with a Richardson stage in powers of `h²` (the override
+`LogHessianRule._complex_high_order = False`, regenerated from the source): its truncation error is `c₂ h² + c₄ h⁴ + …`, unlike the
+scalar complex-step rules for `n > 1`, which are built on `h⁴` -/
+theorem hessian_complex_not_high_order : hessianRuleComplexHighOrder = false := rfl
+
 end Ndt
